@@ -1041,6 +1041,10 @@ func c20Order(r *fw.Run, cs *c20ctx) {
 // slice itself, or an append of context cancel functions.
 func (cs *c20ctx) storedElems(fn *ssa.Function, v ssa.Value) (fw.Status, string) {
 	switch x := v.(type) {
+	case *ssa.Const:
+		if x.IsNil() {
+			return fw.OK, "nil: the stack is emptied, nothing left to call"
+		}
 	case *ssa.Slice:
 		deps := map[*ssa.UnOp]bool{}
 		cs.guardedLoadsIn(fn, x.X, deps, map[ssa.Value]bool{})
